@@ -376,7 +376,7 @@ theorem NP.moovHandler (t : Bytes) : NP (moovHandler t) := by
   np
 theorem NP.readMoov : NP readMoov := NP.loop Pres.moovHandler NP.moovHandler .brk NP.close
 theorem NP.readMdat : NP readMdat := by
-  unfold Bmff.readMdat
+  unfold Bmff.readMdat Bmff.mdatExifBody
   np
   all_goals first | exact NP.readExifHeader _ | exact NP.callback _ _
 theorem NP.dispatch (t : Bytes) : NP (dispatch t) := by
